@@ -11,22 +11,23 @@ def allSome {α : Type} : List (Option α) → Option (List α)
   | none :: _ => none
   | some a :: rest => (allSome rest).map (a :: ·)
 
-def parseAttr (s : String) : Option (Bytes × Bytes) :=
+def parseAttr (s : String) : Option (Bytes × Option Bytes) :=
   match s.splitOn "=" with
+  | [k] => (hexOr k).map (fun a => (a, none))            -- attribute without a value
   | [k, v] => match hexOr k, hexOr v with
-    | some a, some b => some (a, b)
+    | some a, some b => some (a, some b)
     | _, _ => none
   | _ => none
 
-def parseCookie (s : String) : Option Cookie :=
+def parseTs (s : String) : Option (Option Int) := if s = "n" then some none else s.toInt?.map some
+
+/-- `name:value:dateTs:attrs` — the expired flag is computed by the model from attrs, dateTs and the clock -/
+def parseCookie (s : String) : Option RawCookie :=
   match s.splitOn ":" with
-  | [n, v, e, as] =>
-    match hexOr n, hexOr v, allSome ((splitList as ";").map parseAttr) with
-    | some nn, some vv, some aa =>
-      if e = "0" then some { name := nn, value := vv, attrs := aa, expired := false }
-      else if e = "1" then some { name := nn, value := vv, attrs := aa, expired := true }
-      else none
-    | _, _, _ => none
+  | [n, v, d, as] =>
+    match hexOr n, hexOr v, parseTs d, allSome ((splitList as ";").map parseAttr) with
+    | some nn, some vv, some dd, some aa => some { name := nn, value := vv, attrs := aa, dateTs := dd }
+    | _, _, _, _ => none
   | _ => none
 
 def showList (l : List String) (sep : String) : String := if l.isEmpty then "_" else sep.intercalate l
@@ -38,12 +39,18 @@ def b01 (b : Bool) : String := if b then "1" else "0"
 def stepLine (jar : Jar) (line : String) : Jar × String :=
   match fields line with
   | ["reset"] => ([], "ok")
-  | ["resp", h, p, cs] =>
-    match hexOr h, p.toNat?, allSome ((splitList cs ",").map parseCookie) with
-    | some host, some port, some cookies =>
-      let j := response jar host port cookies
-      (j, "ok " ++ toString j.length)
-    | _, _, _ => (jar, "bad-op")
+  | ["resp", t, h, p, cs] =>
+    match t.toInt?, hexOr h, p.toNat?, allSome ((splitList cs ",").map parseCookie) with
+    | some now, some host, some port, some cookies =>
+      let parsed := cookies.map (RawCookie.toCookie now)
+      let j := response jar host port parsed
+      -- reply: jar size and the model's prediction of is_expired for every cookie of the response
+      (j, "ok " ++ toString j.length ++ " " ++ showList (parsed.map (fun c => b01 c.expired)) ",")
+    | _, _, _, _ => (jar, "bad-op")
+  | ["int", h] =>
+    match hexOr h with
+    | some b => (jar, match pyInt b with | some i => toString i | none => "err")
+    | none => (jar, "bad-op")
   | ["req", f, h, p, path] =>
     match hexOr h, p.toNat?, hexOr path with
     | some host, some port, some pth =>
